@@ -36,13 +36,34 @@ pub fn opcode_name(code: u8) -> String {
 pub fn execute_case(line: &str) -> Result<(ExecutionTrace, ParsedProgram), String> {
     let parts: Vec<&str> = line.split('|').collect();
     let (max_cycles, expected) = parse_limits(parts[0]);
+    // optional sixth part: `M <leaf elements, 4 per leaf>`: a Merkle tree the host knows
+    let mut store = None;
+    crate::parse::MERKLE.with(|m| *m.borrow_mut() = None);
+    if let Some(p5) = parts.get(5) {
+        let t: Vec<&str> = p5.split_whitespace().collect();
+        if t.first() == Some(&"M") {
+            use miden_processor::crypto::{MerkleStore, MerkleTree};
+            let vals: Vec<u64> = t[1..].iter().map(|x| x.parse().unwrap()).collect();
+            let leaves: Vec<vm_core::Word> = vals
+                .chunks(4)
+                .map(|c| [vm_core::Felt::new(c[0]), vm_core::Felt::new(c[1]), vm_core::Felt::new(c[2]), vm_core::Felt::new(c[3])])
+                .collect();
+            let tree = MerkleTree::new(leaves).unwrap();
+            let root: Vec<u64> = tree.root().iter().map(|f| f.as_int()).collect();
+            crate::parse::MERKLE.with(|m| *m.borrow_mut() = Some((root, vals.chunks(4).map(|c| c.to_vec()).collect())));
+            store = Some(MerkleStore::from(&tree));
+        }
+    }
     let mut pt = Toks::new(parts[3]);
     let pp = parse_program(&mut pt);
     let mut stack: Vec<u64> = parts[1].split_whitespace().map(|t| parse_val(t, &pp.hashes)).collect();
     stack.reverse();
     let adv: Vec<u64> = parts[2].split_whitespace().map(|t| parse_val(t, &pp.hashes)).collect();
     let stack_inputs = StackInputs::try_from_values(stack).unwrap();
-    let advice_inputs = AdviceInputs::default().with_stack_values(adv).unwrap();
+    let mut advice_inputs = AdviceInputs::default().with_stack_values(adv).unwrap();
+    if let Some(st) = store {
+        advice_inputs = advice_inputs.with_merkle_store(st);
+    }
     let host = DefaultHost::new(MemAdviceProvider::from(advice_inputs));
     let opts = ExecutionOptions::new(Some(max_cycles), expected, false).unwrap();
     match miden_processor::execute(&pp.program, stack_inputs, host, opts) {
